@@ -42,6 +42,9 @@ def lines_in_strings(src):
     return inside
 
 
+COMMENT_TEXTS = ["## note", "#", "### heading ##", "## see ## total", '# "quoted', "# {brace", "# def x := 1", "# ends with backslash \\", "#! shebang", "# tab\tinside", "# ünïcode"]
+
+
 def indent_of(l):
     return len(l) - len(l.lstrip(" "))
 
@@ -96,9 +99,21 @@ def variants(src, pairs=False):
             ls.insert(op[1], op[2])
         return ls
 
+    # other comment TEXTS (a comment is trivia whatever it contains): at the first, a middle and the last code line, as whole-line
+    # comment before it and as trailing comment after it
+    extra_singles = []
+    if code:
+        for i in sorted({code[0], code[len(code) // 2], code[-1]}):
+            for k, text in enumerate(COMMENT_TEXTS):
+                if i not in inside:
+                    extra_singles.append(("comment-text-%d-before@line%d" % (k, i), ("ins", i, " " * indent_of(lines[i]) + text)))
+                extra_singles.append(("comment-text-%d-trailing@line%d" % (k, i), ("app", i, "  " + text)))
+    # appending to a line that ends inside a string literal would change the literal: not trivia (singles and pairs alike)
+    extra_singles = [(desc, op) for desc, op in extra_singles if not (op[0] == "app" and (op[1] + 1) in inside)]
+    for desc, op in extra_singles:
+        yield desc, build(apply([op]))
+    singles = [(desc, op) for desc, op in singles if not (op[0] == "app" and (op[1] + 1) in inside)]
     for desc, op in singles:
-        if op[0] == "app" and (op[1] + 1) in inside:
-            continue
         yield desc, build(apply([op]))
     yield "final-newline-" + ("off" if had_nl else "on"), build(lines, nl=not had_nl)
     if not any("\r" in l for l in lines):
